@@ -21,7 +21,7 @@ ASSUMPTIONS = ["networkx MultiGraph/Graph add_edge/remove_node/adjacency semanti
                "single_source_dijkstra_path_length is compared with the verified relaxation, it is not itself verified",
                "calc_branch_impedances=True and library='graph_tool' are not modelled; no tcsc/vsc/line_dc elements",
                "the pop order of a python set in connected_components is arbitrary: components are compared as a set of sets"]
-TRUSTED = ["python twin of the guard G26 in harness/props/c26.py"]
+TRUSTED = ["independent python evaluation of the property text (spec_arcs) in harness/props/c26.py"]
 ET = {"line": 0, "impedance": 1, "dcline": 2, "trafo": 3, "trafo3w": 4, "switch": 5}
 
 
@@ -160,39 +160,6 @@ def spec_arcs(net, o):
     return nodes, sorted(arcs)
 
 
-def guard_g26(net, o):
-    nt = o["notravbuses"] or []
-    if not nt or o["include_out_of_service"]:
-        return True
-    oos = set(int(b) for b in net.bus.index[~net.bus.in_service.values.astype(bool)])
-    # edges as create_nxgraph adds them before any node is removed, but with the element in_service masks of o
-    o3 = dict(o)
-    o3["nogobuses"], o3["notravbuses"] = None, None
-    try:
-        E = _raw_pairs(net, o3)
-    except KeyError:
-        return True
-    for b in nt:
-        if b in oos:
-            return False
-        for u, v in E:
-            if (u == b and v in oos) or (v == b and u in oos):
-                return False
-    return True
-
-
-def _raw_pairs(net, o):
-    """endpoints of all edges add_edges would add (element masks applied, no node removal)"""
-    isb_all = dict(o)
-    saved = net.bus.in_service.values.copy()
-    try:
-        net.bus["in_service"] = True
-        _, arcs = spec_arcs(net, isb_all)
-    finally:
-        net.bus["in_service"] = saved
-    return [(a[0], a[1]) for a in arcs]
-
-
 def _brute_dist(nodes, arcs, src):
     d = {src: Fraction(0)}
     for _ in range(len(nodes) + 2):
@@ -247,14 +214,13 @@ def _one(ctx, rng, k, net=None, o=None, cc_notrav=None, src=None):
 
 def _judge(ctx, c, m):
     js, impl, net, o = c["js"], c["impl"], c["net"], c["o"]
-    m_graph, m_cc, m_dist, m_g26, m_sym = m
+    m_graph, m_cc, m_dist, m_nodangle, m_sym = m
+    if m_nodangle is False:
+        ctx.disagreement("model graph has an arc that ends at a removed node (no_dangling = false)", js)
     if m_sym is False and not (o["notravbuses"] or []):
         ctx.disagreement("hypothesis of C26_cc_partition violated: adjacency of a graph built without notravbuses is not symmetric", js)
     if m_sym is True:
         ctx.count("sym_arcs_true")
-    gd = guard_g26(net, o)
-    if bool(m_g26) != gd:
-        ctx.disagreement("guard G26: python twin %s, Coq %s" % (gd, m_g26), js)
     # ---------------- correspondence
     ctx.corr_checked += 1
     ok_model = True
@@ -298,23 +264,20 @@ def _judge(ctx, c, m):
     except KeyError:
         want, want_err = None, "KeyError"
     nogo_bad = any(b not in set(net.bus.index) for b in (o["nogobuses"] or []))
-    nt_in_nogo = any(b in set(o["nogobuses"] or []) for b in (o["notravbuses"] or []))
     if isinstance(impl["graph"], str):
-        if want_err is None and not nogo_bad and not nt_in_nogo:
-            kind = "C26-notrav-oos" if (not gd and ok_model and impl["graph"] == "raise:KeyError") else "spec"
+        if want_err is None and not nogo_bad:
+            kind = "spec"
             ctx.violation(kind, "create_nxgraph raised %s for valid options" % impl["graph"], js)
     elif want is not None:
         nodes, arcs = impl["graph"]
         if o["multi"]:
             if (nodes, arcs) != want:
-                dang = any(a[1] not in set(nodes) for a in arcs)
-                kind = "C26-notrav-oos" if (not gd and ok_model and dang) else "spec"
+                kind = "spec"
                 ctx.violation(kind, "graph is not the set of energizing connections: nodes %s arcs %s expected nodes %s arcs %s"
                               % (nodes, arcs[:10], want[0], want[1][:10]), js)
         else:
             if nodes != want[0] or sorted(set(a[:2] for a in arcs)) != sorted(set(a[:2] for a in want[1])):
-                dang = any(a[1] not in set(nodes) for a in arcs)
-                kind = "C26-notrav-oos" if (not gd and ok_model and dang) else "spec"
+                kind = "spec"
                 ctx.violation(kind, "Graph (multi=False) node pairs differ from the energizing connections", js)
         dangling = any(a[1] not in set(nodes) for a in arcs)
         # connected_components partitions the node set (no notravbuses given to the search, symmetric adjacency)
@@ -345,12 +308,13 @@ def _judge(ctx, c, m):
                 ctx.violation("spec", "calc_distance_to_bus is not the shortest path length: %s vs %s" % (
                     impl["dist"], {x: float(v) for x, v in bd.items()}), js)
         elif isinstance(impl["dist"], str) and c["js"]["src"] in nodes:
-            kind = "C26-notrav-oos" if (not gd and ok_model and dangling) else "spec"
+            kind = "spec"
             ctx.violation(kind, "calc_distance_to_bus raised %s for a source inside the graph" % impl["dist"], js)
     nondefault = sum(1 for kk, v in o.items() if v not in (True, None) and not (kk == "include_out_of_service" and v is False))
     ctx.case(js, nontrivial=nondefault > 0, sample={"opts": o, "impl_nodes": impl["graph"][0] if not isinstance(impl["graph"], str) else impl["graph"]} if c["k"] < 2 else None)
     ctx.count("graph_" + ("raise" if isinstance(impl["graph"], str) else "ok"))
-    ctx.count("guard_" + ("ok" if gd else "notrav-oos"))
+    oosb = set(int(b) for b in net.bus.index[~net.bus.in_service.values.astype(bool)])
+    ctx.count("notrav_is_oos_%s" % bool(set(o["notravbuses"] or []) & oosb))
     ctx.count("multi_%s" % o["multi"])
     ctx.count("notrav_%d" % len(o["notravbuses"] or []))
 
